@@ -86,6 +86,35 @@ func VerifC01Accept() {
 	if len(sig) == 0 && rt.Choose("nosig", 2) == 0 {
 		m.Signature = nil
 	}
+	// the wire format lets a message carry a public key next to the signature: none, the sender's own,
+	// the key of a second signer (an attacker with an own key pair who has signed the very tuple
+	// offered to the verifier), or junk
+	if m.Signature != nil && senderKind == 0 {
+		switch rt.Choose("attached", 4) {
+		case 1:
+			m.Signature.PubKey, _ = crypto.MarshalPublicKey(sk.GetPublic())
+		case 2:
+			seed2 := make([]byte, 32)
+			seed2[0] = 0x42
+			std2 := ed25519.NewKeyFromSeed(seed2)
+			sk2, _, err := crypto.KeyPairFromStdKey(&std2)
+			rt.Assert("second key from seed", err == nil)
+			if evil, _ := NewSignature(ctx, sk2, ht, data, true); evil != nil {
+				m.Signature.PubKey = evil.PubKey
+				// the attacker's own signature is among the symbolic ones; offering it by construction
+				// keeps a counterexample replayable with the real primitive
+				if len(sig) == 64 && rt.Choose("attackerSig", 2) == 1 {
+					sig = evil.SigData
+					m.Signature.SigData = sig
+				}
+				// the attacker is a different party than the claimed sender
+				pk2raw, _ := sk2.GetPublic().Raw()
+				rt.Assume(rt.Not(rt.BytesEq(pk2raw, key)))
+			}
+		case 3:
+			m.Signature.PubKey = rt.Bytes("attachedraw", 1, 3)
+		}
+	}
 
 	rt.KnownFinding("C01-verify-error-dropped", true)
 	pk, id, err := m.ExtractAndVerify(ctx)
@@ -148,5 +177,41 @@ func VerifC01Wire() {
 	rt.KnownFinding("C01-verify-error-dropped", true)
 	_, _, err = m.ExtractAndVerify(rt.String("ctx", 0, 1))
 	rt.Assert("random wire bytes are not an authentic message", err != nil)
+	rt.Reach("end")
+}
+
+// VerifC01Repeat: verification keeps no state between calls: after the authentic message was accepted,
+// a copy with another body (same sender, same signature) is still rejected, and the authentic one is
+// still accepted afterwards.
+func VerifC01Repeat() {
+	seed := rt.Bytes("seed", 32, 32)
+	std := ed25519.NewKeyFromSeed(seed)
+	sk, _, err := crypto.KeyPairFromStdKey(&std)
+	rt.Assert("key from seed", err == nil)
+	ctx := rt.String("ctx", 1, 1)
+	data := rt.Bytes("data", 1, 1)
+	ht := hash.HashType(rt.IntRange("ht", 1, 3))
+	m, err := NewSignedMsg(ctx, sk, ht, data)
+	rt.Assert("sign", err == nil)
+	_, _, err = m.ExtractAndVerify(ctx)
+	rt.Assert("authentic message accepted", err == nil)
+	t := &SignedMsg{FromPeerId: m.FromPeerId, Signature: &Signature{HashType: m.Signature.HashType, SigData: m.Signature.SigData}, Data: m.Data}
+	ctx2 := ctx
+	switch rt.Choose("tamper", 3) {
+	case 0:
+		t.Data = rt.Bytes("data2", 1, 1)
+		rt.Assume(t.Data[0] != data[0])
+	case 1:
+		t.Signature.HashType = hash.HashType(1 + (int(ht) % 3))
+	case 2:
+		ctx2 = rt.String("ctx2", 1, 1)
+		rt.Assume(ctx2 != ctx)
+	}
+	_, _, err = t.ExtractAndVerify(ctx2)
+	rt.Assert("a tampered copy is rejected after the authentic message was accepted", err != nil)
+	_, _, err = t.ExtractAndVerify(ctx2)
+	rt.Assert("and rejected again", err != nil)
+	_, _, err = m.ExtractAndVerify(ctx)
+	rt.Assert("the authentic message is still accepted", err == nil)
 	rt.Reach("end")
 }
